@@ -18,6 +18,7 @@ RULE = (
     "blocks, functions without code), and expected entry positions incl. "
     "promotion of the next block of the same function. non-trivial = apply() "
     "returned with >=1 edit and >=1 attribution compared."
+    " Second module in the IR as in C01: its function tables must be unchanged."
 )
 ASSUMPTIONS = [
     "a function whose only remaining block is a documented retained zero-sized block may stay in the tables",
@@ -243,4 +244,5 @@ def run_case(case):
         v, c = oracles.check_functions(a.run, a.lst, a.ob)
         a.viol += v
         a.ctr.update(c)
+    rwbase.bystander(a, PROP)
     return rwbase.result(a)
